@@ -309,7 +309,8 @@ class Environment:
 
         for event in events_to_unpause:
             self._paused_events.remove(event)
-            event.time += self.now - event.paused_at
+            # Rounding must not place a resumed event in the past.
+            event.time = max(self.now, event.time + (self.now - event.paused_at))
             bisect.insort(self._events, event)
 
     def add_datapoint(self, list_label, sub_label, datapoint):
